@@ -472,8 +472,8 @@ func (c *Check) selectBeforeRewrite(byName *ssa.Function) {
 				if x.Call.StaticCallee() == nil || x.Call.StaticCallee().Name() != "matchesName" {
 					continue
 				}
-				if iff, ok := b.Instrs[len(b.Instrs)-1].(*ssa.If); ok && iff.Cond == ssa.Value(x) {
-					for _, sc := range b.Succs {
+				if iff := branchOn(x); iff != nil {
+					for _, sc := range iff.Block().Succs {
 						if updatesSel(sc) {
 							selCalls = append(selCalls, x)
 							break
@@ -843,8 +843,28 @@ func optionSources(v ssa.Value, seen map[ssa.Value]bool) []string {
 			}
 			return dedup(out)
 		}
+		if fa, ok := x.X.(*ssa.FieldAddr); ok && x.Op == token.MUL {
+			if al, ok := fa.X.(*ssa.Alloc); ok {
+				if vals, ok := fieldValues(&ssa.UnOp{Op: token.MUL, X: al}, fa.Field, 0); ok && len(vals) > 0 {
+					var out []string
+					for _, e := range vals {
+						out = append(out, optionSources(e, seen)...)
+					}
+					return dedup(out)
+				}
+			}
+		}
 	case *ssa.ChangeType:
 		return optionSources(x.X, seen)
+	case *ssa.Field:
+		// the compiled filters are kept in a struct (built here or by a helper)
+		if vals, ok := fieldValues(x.X, x.Field, 0); ok && len(vals) > 0 {
+			var out []string
+			for _, e := range vals {
+				out = append(out, optionSources(e, seen)...)
+			}
+			return dedup(out)
+		}
 	case *ssa.Call:
 		if sc := x.Call.StaticCallee(); sc != nil && (sc.Name() == "compileRegexOption" || sc.Name() == "compileTagFilter") && len(x.Call.Args) > 1 {
 			if f := configFieldOf(x.Call.Args[1]); f != "" {
@@ -1079,4 +1099,35 @@ func blockReaches(from, to *ssa.BasicBlock, assume func(ssa.Value) int) bool {
 		}
 	}
 	return false
+}
+
+// branchOn: the If that branches on the boolean v: directly, or through the phi that a
+// short-circuit `a && v` / `a || v` evaluated as a value produces (its other edges are
+// constants).
+func branchOn(v ssa.Value) *ssa.If {
+	if v.Referrers() == nil {
+		return nil
+	}
+	for _, r := range *v.Referrers() {
+		switch x := r.(type) {
+		case *ssa.If:
+			return x
+		case *ssa.Phi:
+			onlyConst := true
+			for _, e := range x.Edges {
+				if e == v {
+					continue
+				}
+				if _, isConst := e.(*ssa.Const); !isConst {
+					onlyConst = false
+				}
+			}
+			if onlyConst {
+				if iff := branchOn(x); iff != nil {
+					return iff
+				}
+			}
+		}
+	}
+	return nil
 }
